@@ -103,7 +103,7 @@ func runC14(w *World, r *Report, tier string) {
 			if call == nil || !truth || w.callKey(call) != "xmpp.isSupportedMech" {
 				return false
 			}
-			a0 := valueOnPath(rvI(call.Call.Args[0], curEdgeIdx), path)
+			a0 := resolveOn(call.Call.Args[0], curEdgeIdx, path)
 			return a0 == mech && isAdvertised(w.nfOn(call.Call.Args[1], path))
 		})
 		if !supported {
@@ -114,7 +114,7 @@ func runC14(w *World, r *Report, tier string) {
 					return false
 				}
 				for _, pr := range [][2]ssa.Value{{bo.X, bo.Y}, {bo.Y, bo.X}} {
-					if !sameValue(valueOnPath(rvI(pr[0], curEdgeIdx), path), mech) {
+					if !sameValue(resolveOn(pr[0], curEdgeIdx, path), mech) {
 						continue
 					}
 					if u, ok := pr[1].(*ssa.UnOp); ok {
@@ -143,7 +143,7 @@ func runC14(w *World, r *Report, tier string) {
 			if (bo.Op == token.EQL) != truth {
 				return
 			}
-			x, y := valueOnPath(rvI(bo.X, curEdgeIdx), path), valueOnPath(rvI(bo.Y, curEdgeIdx), path)
+			x, y := resolveOn(bo.X, curEdgeIdx, path), resolveOn(bo.Y, curEdgeIdx, path)
 			if s, isS := stringConst(y); isS && x == mech {
 				got = s
 			} else if s, isS := stringConst(x); isS && y == mech {
@@ -158,7 +158,7 @@ func runC14(w *World, r *Report, tier string) {
 				return
 			}
 			if ex, isEx := c.(*ssa.Extract); isEx && ex.Index == 1 {
-				if t, lk := w.tableLookup(ex.Tuple); t != nil && valueOnPath(rvI(lk.Index, curEdgeIdx), path) == mech {
+				if t, lk := w.tableLookup(ex.Tuple); t != nil && resolveOn(lk.Index, curEdgeIdx, path) == mech {
 					viaTable = true
 					for _, e := range t {
 						switchConsts[e.Key] = true
